@@ -391,3 +391,44 @@ func vpC07Repeat(n, m int) {
 func VP_C07_Repeat_n2_m2() { vpC07Repeat(2, 2) }
 func VP_C07_Repeat_n3_m2() { vpC07Repeat(3, 2) }
 func VP_C07_Repeat_n4_m3() { vpC07Repeat(4, 3) }
+
+// C07-H1d: votes for nil never commit anything: a commit for a block id with an empty hash but a
+// non-zero part-set header (well-formed for ValidateBasic, and not the nil id) whose slots carry the
+// validators' genuine precommits for nil is rejected by all three variants.
+func VP_C07_NilVotesCommitNothing() {
+	n := 3
+	keys := make([]ed25519.PrivKey, n)
+	powers := make([]int64, n)
+	for i := range keys {
+		keys[i] = vpKey(i)
+		powers[i] = 10
+	}
+	vals := vpValSetRaw(keys, powers)
+	psh := PartSetHeader{Total: 1, Hash: vpBlockID(0x77).PartSetHeader.Hash}
+	var bid BlockID
+	switch vp.Choice("commit-block-id", 2) {
+	case 0:
+		bid = BlockID{Hash: nil, PartSetHeader: psh} // no hash, but parts
+	case 1:
+		bid = BlockID{Hash: []byte{}, PartSetHeader: psh}
+	}
+	commit := &Commit{Height: vpHeight, Round: vpRound, BlockID: bid, Signatures: make([]CommitSig, n)}
+	for i, v := range vals.Validators {
+		var key ed25519.PrivKey
+		for _, k := range keys {
+			if string(k.PubKey().Address()) == string(v.Address) {
+				key = k
+			}
+		}
+		vote := &Vote{Type: tmproto.PrecommitType, Height: vpHeight, Round: vpRound, BlockID: BlockID{}, Timestamp: vpTime(1000), ValidatorAddress: v.Address, ValidatorIndex: int32(i)}
+		sig, err := key.Sign(VoteSignBytes(vpChainID, vote.ToProto()))
+		if err != nil {
+			panic(err)
+		}
+		commit.Signatures[i] = CommitSig{BlockIDFlag: BlockIDFlagCommit, ValidatorAddress: v.Address, Timestamp: vpTime(1000), Signature: sig}
+	}
+	vp.Assert(vals.VerifyCommit(vpChainID, bid, vpHeight, commit) != nil, "C07.full.precommits-for-nil-commit-nothing")
+	vp.Assert(vals.VerifyCommitLight(vpChainID, bid, vpHeight, commit) != nil, "C07.light.precommits-for-nil-commit-nothing")
+	vp.Assert(vals.VerifyCommitLightTrusting(vpChainID, commit, tmmath.Fraction{Numerator: 1, Denominator: 3}) != nil, "C07.trusting.precommits-for-nil-commit-nothing")
+	vp.Reach("checked")
+}
